@@ -143,6 +143,77 @@ def rule_sql3(A: Analysis, rep, Q=None):
     return Q
 
 
+def _row_index(A: Analysis, f, e, is_flag: bool, row_params=()):
+    """Index, in the selected row, of the column that expression `e` carries (None if it is not a plain column).
+    `row_params`: parameters of f that stand for the row itself (a helper that is handed the row)."""
+    if e is None:
+        return None
+    if is_flag:
+        # 0/1 → bool wrappers
+        if isinstance(e, ast.IfExp) and norm(e.body) == "False" and norm(e.orelse) == "True" and isinstance(e.test, ast.Compare) and norm(e.test.comparators[0]) == "0" and isinstance(e.test.ops[0], ast.Eq):
+            return _row_index(A, f, e.test.left, False, row_params)
+        if isinstance(e, ast.IfExp) and norm(e.body) == "True" and norm(e.orelse) == "False":
+            t_ = e.test
+            if isinstance(t_, ast.Compare) and norm(t_.comparators[0]) == "0" and isinstance(t_.ops[0], ast.NotEq):
+                return _row_index(A, f, t_.left, False, row_params)
+            return _row_index(A, f, t_, False, row_params)
+        if isinstance(e, ast.Compare) and len(e.ops) == 1 and isinstance(e.ops[0], ast.NotEq) and norm(e.comparators[0]) == "0":
+            return _row_index(A, f, e.left, False, row_params)
+        if isinstance(e, ast.UnaryOp) and isinstance(e.op, ast.Not) and isinstance(e.operand, ast.Compare) and isinstance(e.operand.ops[0], ast.Eq) and norm(e.operand.comparators[0]) == "0":
+            return _row_index(A, f, e.operand.left, False, row_params)
+        if isinstance(e, ast.Call) and norm(e.func) == "bool" and len(e.args) == 1:
+            return _row_index(A, f, e.args[0], False, row_params)
+        return None
+
+    def base_offset(x, depth=0):
+        """offset of x[0] inside the row when x is the row or a tail slice of it"""
+        if depth > 4:
+            return None
+        if isinstance(x, ast.Subscript) and isinstance(x.slice, ast.Slice) and x.slice.upper is None and x.slice.step is None:
+            lo = x.slice.lower
+            k = 0 if lo is None else (lo.value if isinstance(lo, ast.Constant) and isinstance(lo.value, int) else None)
+            b = base_offset(x.value, depth + 1)
+            return None if k is None or b is None else b + k
+        if isinstance(x, ast.Name):
+            if _is_row_name(x.id):
+                return 0
+            v = A.single_def_value(f, x.id)
+            if v is not None:
+                return base_offset(v, depth + 1)
+        return None
+
+    def _is_row_name(name):
+        if name in row_params:
+            return True
+        for d in A.defs(f, name):
+            if isinstance(d, (ast.For, ast.comprehension)) and isinstance(d.target, ast.Name) and d.target.id == name and "cursor" in norm(d.iter):
+                return True
+            if isinstance(d, (ast.Assign, ast.AnnAssign)) and d.value is not None and norm(d.value).endswith(".fetchone()"):
+                return True
+        return False
+    if isinstance(e, ast.Subscript) and isinstance(e.slice, ast.Constant) and isinstance(e.slice.value, int):
+        b = base_offset(e.value)
+        return None if b is None else b + e.slice.value
+    if isinstance(e, ast.Name):
+        for d in A.defs(f, e.id):
+            tg, src = None, None
+            if isinstance(d, ast.Assign) and len(d.targets) == 1 and isinstance(d.targets[0], (ast.Tuple, ast.List)):
+                tg, src = d.targets[0], d.value
+            elif isinstance(d, (ast.For, ast.comprehension)) and isinstance(d.target, (ast.Tuple, ast.List)) and "cursor" in norm(d.iter):
+                tg, src = d.target, None
+            if tg is not None and not any(isinstance(x, ast.Starred) for x in tg.elts):
+                for i_, el in enumerate(tg.elts):
+                    if isinstance(el, ast.Name) and el.id == e.id:
+                        if isinstance(src, (ast.Tuple, ast.List)) and len(src.elts) == len(tg.elts):
+                            return _row_index(A, f, src.elts[i_], False, row_params)     # `a, b = row[0], row[1]`
+                        off = 0 if src is None else base_offset(src)
+                        return None if off is None else off + i_
+        v = A.single_def_value(f, e.id)
+        if v is not None and not isinstance(v, ast.Name):
+            return _row_index(A, f, v, False, row_params)
+    return None
+
+
 def rule_vi2(A: Analysis, rep, Q=None):
     """Column lists ↔ row slices ↔ Version constructor."""
     Q = Q or queries(A)
@@ -158,31 +229,52 @@ def rule_vi2(A: Analysis, rep, Q=None):
         ok = norm(tup) == "(str(%s), %s.timestamp, %s.commit_hash, 1 if %s.has_uncommitted_changes else 0)" % (ti, ver, ver, ver)
     rep.check(ok, "VI2", "INSERT bindings", ins.node, "(str(id), timestamp, commit_hash, dirty flag) in column order",
               "insert_output_version binds its values in a different order / from different fields")
-    vf = A.fn(VI + "_version_from_row")
-    cons = A.calls_in_func(vf, "conductor.execution.version_index.Version")
-    ok = False
-    if len(cons) == 1:
-        b = A.bind_args(cons[0], A.fn("execution.version_index.Version.__init__"))
-        row = [p_ for p_ in vf.params if p_ not in ("self", "cls")][0]
-        tx = lambda k: A.xtext(b.get(k, ast.Constant(0)), vf)
-        ok = tx("timestamp") == "%s[0]" % row and tx("commit_hash") == "%s[1]" % row and \
-            tx("has_uncommitted_changes") in ("False if %s[2] == 0 else True" % row, "%s[2] != 0" % row, "bool(%s[2])" % row, "not %s[2] == 0" % row)
-    rep.check(ok, "VI2", "row → Version field order", vf.node, "row[0]=timestamp, row[1]=commit hash, row[2]=dirty flag", "_version_from_row maps the columns differently")
-    # consumers
-    consumers = {"get_latest_output_version": ("latest_task_version", "row"),
-                 "get_all_versions_for_task": ("all_entries_for_task", "row[1:]"),
-                 "get_all_versions": ("all_versions", "row[1:]")}
-    for fn, (qname, slice_) in consumers.items():
+    # consumers: every Version built from a selected row takes each field from the column of that name, whatever the
+    # plumbing (row[k], row[1:][k], tuple unpacking of the row or of the loop target, a private helper — inlined)
+    consumers = {"get_latest_output_version": "latest_task_version", "get_all_versions_for_task": "all_entries_for_task", "get_all_versions": "all_versions"}
+    FIELD_COL = {"timestamp": "timestamp", "commit_hash": "git_commit_hash", "has_uncommitted_changes": "has_uncommitted_changes"}
+    vinit = A.fn("execution.version_index.Version.__init__")
+    for fn, qname in consumers.items():
         f = A.fn(VI + fn)
         exs = [c for c in walk_local(f.node) if isinstance(c, ast.Call) and isinstance(c.func, ast.Attribute) and c.func.attr == "execute"]
-        vfr = A.calls_in_func(f, "VersionIndex._version_from_row")
-        ok = len(exs) == 1 and executed_query(A, exs[0]) == qname and len(vfr) == 1 and norm(vfr[0].args[0]) == slice_
+        ok = len(exs) == 1 and executed_query(A, exs[0]) == qname
+        cols = colnames(Q[qname]) if qname in Q and Q[qname].get("type") == "select" else []
         if fn != "get_all_versions" and ok:
             ok = len(exs[0].args) == 2 and norm(exs[0].args[1]) == "(str(%s),)" % f.params[1]
-        if fn == "get_all_versions" and ok:
-            ok = any(isinstance(c, ast.Call) and norm(c) == "TaskIdentifier.from_str(row[0])" for c in walk_local(f.node))
-        rep.check(ok, "VI2", "%s reads %s" % (fn, qname), f.node, "query, binding and row slice agree",
-                  "%s no longer runs %s bound to its task and decodes `%s`" % (fn, qname, slice_))
+        cons = A.calls_in_func(f, "conductor.execution.version_index.Version")
+        det = "query %s" % (executed_query(A, exs[0]) if exs else None)
+        hf, hoff, hrow = f, 0, ()
+        if ok and not cons:
+            # the row is handed to one helper that builds the Version: resolve inside the helper, shifted by the slice passed
+            for c_ in walk_local(f.node):
+                if isinstance(c_, ast.Call) and len(c_.args) == 1 and not c_.keywords:
+                    for cal in A.res.callees(c_):
+                        h_ = A.prog.functions.get(cal)
+                        if h_ is not None and h_.cls is not None and h_.cls.fq.endswith("VersionIndex") and len(A.calls_in_func(h_, "conductor.execution.version_index.Version")) == 1:
+                            rp = [p_ for p_ in h_.params if p_ not in ("self", "cls")]
+                            off = _row_index(A, f, ast.Subscript(value=c_.args[0], slice=ast.Constant(value=0), ctx=ast.Load()), False)
+                            if len(rp) == 1 and off is not None:
+                                hf, hoff, hrow = h_, off, (rp[0],)
+                                cons = A.calls_in_func(h_, "conductor.execution.version_index.Version")
+        if ok:
+            ok = len(cons) == 1
+            det = "%d Version construction(s)" % len(cons)
+        if ok:
+            bnd = A.bind_args(cons[0], vinit)
+            got = {}
+            for field, col in FIELD_COL.items():
+                idx = _row_index(A, hf, bnd.get(field), field == "has_uncommitted_changes", hrow)
+                idx = None if idx is None else idx + hoff
+                got[field] = cols[idx] if idx is not None and 0 <= idx < len(cols) else None
+            ok = got == FIELD_COL
+            det = "fields come from columns %s" % got
+            if ok and fn == "get_all_versions":
+                ids = [c for c in walk_local(f.node) if isinstance(c, ast.Call) and norm(c.func) == "TaskIdentifier.from_str" and c.args]
+                idx = _row_index(A, f, ids[0].args[0], False) if len(ids) == 1 else None
+                ok = idx is not None and 0 <= idx < len(cols) and cols[idx] == "task_identifier"
+                det = "identifier parsed from column %s" % (cols[idx] if idx is not None and 0 <= idx < len(cols) else None)
+        rep.check(ok, "VI2", "%s reads %s" % (fn, qname), f.node, "query, binding and the column each Version field is taken from agree",
+                  "%s no longer runs %s bound to its task and builds the Version from the matching columns (%s)" % (fn, qname, det))
     # Version property getters
     for prop, field in (("timestamp", "_timestamp"), ("commit_hash", "_commit_hash"), ("has_uncommitted_changes", "_has_uncommitted_changes")):
         pf = A.fn("execution.version_index.Version." + prop)
